@@ -42,8 +42,8 @@ Fixpoint nf (G : cfg) (e : expr) {struct e} : bool :=
   | ENot a => nf G a && expr_eqb (walk_not a) e
   | EImplies a b => nf G a && nf G b && expr_eqb (walk_implies a b) e
   | EIff a b => nf G a && nf G b && expr_eqb (walk_iff a b) e
-  | EExists vs a => nf G a && negb (is_nil vs) && vars_eqb (prune vs a) vs && is_none (elim_step G vs a)
-  | EForall vs a => nf G a && negb (is_nil vs) && vars_eqb (prune vs a) vs
+  | EExists vs a => nf G a && negb (is_nil vs) && vars_eqb (prune G vs a) vs && is_none (elim_step G vs a)
+  | EForall vs a => nf G a && negb (is_nil vs) && vars_eqb (prune G vs a) vs
   | EPlus l => forallb (nf G) l && anf false l
   | ETimes l => forallb (nf G) l && anf true l
   | EMinus a b => nf G a && nf G b && expr_eqb (walk_minus a b) e
@@ -483,25 +483,25 @@ Section NF.
   Qed.
 
   (* ---------------------------------------------------------------- quantifiers *)
-  Lemma prune_idem vs b : prune (prune vs b) b = prune vs b.
+  Lemma prune_idem vs b : prune G (prune G vs b) b = prune G vs b.
   Proof.
     unfold prune. induction vs as [|p r IH]; [reflexivity|]. cbn [filter].
-    destruct (memN (fst p) (free_vars b)) eqn:M; [cbn [filter]; rewrite M, IH; reflexivity|exact IH].
+    destruct (memN (fst p) (free_vars b) || empty_ty G (snd p)) eqn:M; [cbn [filter]; rewrite M, IH; reflexivity|exact IH].
   Qed.
 
   Lemma vars_eqb_refl vs : vars_eqb vs vs = true.
   Proof. apply vars_eqb_eq. reflexivity. Qed.
 
-  Lemma nf_walk_forall vs b : nfG b = true -> nfG (walk_forall vs b) = true.
+  Lemma nf_walk_forall vs b : nfG b = true -> nfG (walk_forall G vs b) = true.
   Proof.
-    intros N. unfold walk_forall. destruct (prune vs b) as [|p r] eqn:P; [exact N|].
+    intros N. unfold walk_forall. destruct (prune G vs b) as [|p r] eqn:P; [exact N|].
     cbn [mkForall nf]. rewrite N, <- P, prune_idem, vars_eqb_refl, P. reflexivity.
   Qed.
 
   Lemma nf_walk_exists_noelim vs b :
-    nfG b = true -> elim_step G (prune vs b) b = None -> nfG (mkExists (prune vs b) b) = true.
+    nfG b = true -> elim_step G (prune G vs b) b = None -> nfG (mkExists (prune G vs b) b) = true.
   Proof.
-    intros N E. destruct (prune vs b) as [|p r] eqn:P; [exact N|].
+    intros N E. destruct (prune G vs b) as [|p r] eqn:P; [exact N|].
     cbn [mkExists nf]. rewrite N, E, <- P, prune_idem, vars_eqb_refl, P. reflexivity.
   Qed.
 
@@ -589,8 +589,8 @@ Section NF.
     - apply nf_walk_iff; tauto.
     - (* EExists *)
       destruct O as [Oa Oe]. specialize (IHe Oa). cbv zeta in Oe. unfold walk_exists.
-      destruct (elim_step G (prune vs (simp G n e)) (simp G n e)) as [p|] eqn:ES.
-      + destruct (elim_loop G (length (prune vs (simp G n e))) (prune vs (simp G n e)) (simp G n e)) as [vs1 b1] eqn:L.
+      destruct (elim_step G (prune G vs (simp G n e)) (simp G n e)) as [p|] eqn:ES.
+      + destruct (elim_loop G (length (prune G vs (simp G n e))) (prune G vs (simp G n e)) (simp G n e)) as [vs1 b1] eqn:L.
         apply Hrs. destruct n; [discriminate|exact Oe].
       + apply nf_walk_exists_noelim; assumption.
     - apply nf_walk_forall. auto.
